@@ -81,35 +81,52 @@ def plan_prefix_step(rep: Report, prog: Program) -> None:
     rets = [n for n in ast.walk(fn) if isinstance(n, ast.Return) and isinstance(n.value, ast.Call)]
     if not rets:
         raise AnalysisError("conversions.convert: no `return Quantity(...)` found")
-    for r in rets:
+    defs: Dict[str, List[ast.AST]] = {}
+    for n in ast.walk(fn):
+        if isinstance(n, ast.Assign):
+            for t in n.targets:
+                for x in ast.walk(t):
+                    if isinstance(x, ast.Name):
+                        defs.setdefault(x.id, []).append(n.value)
+        elif isinstance(n, ast.AugAssign) and isinstance(n.target, ast.Name):
+            defs.setdefault(n.target.id, []).append(n.value)
+        elif isinstance(n, ast.For):
+            for x in ast.walk(n.target):
+                if isinstance(x, ast.Name):
+                    defs.setdefault(x.id, []).append(n.iter)
+
+    def closure(e: ast.AST) -> List[ast.AST]:
+        seen: Set[str] = set()
+        exprs = [e]
+        work = [e]
+        while work:
+            cur = work.pop()
+            for nm in names_in(cur):
+                if nm not in seen:
+                    seen.add(nm)
+                    for d in defs.get(nm, []):
+                        exprs.append(d)
+                        work.append(d)
+        return exprs
+
+    def is_unprefixed_call(x: ast.AST) -> bool:
+        return (isinstance(x, ast.Call) and isinstance(x.func, ast.Attribute) and x.func.attr == "unprefixed"
+                and isinstance(x.func.value, ast.Name) and x.func.value.id == qparam)
+    for i, r in enumerate(rets):
         call = r.value
         assert isinstance(call, ast.Call)
-        if not call.args or not isinstance(call.args[0], ast.Name):
-            raise AnalysisError("conversions.convert: returned magnitude is not a local variable")
-        m = call.args[0].id
-        first = None
-        for st in fn.body:
-            if isinstance(st, ast.Assign) and any(isinstance(t, ast.Name) and t.id == m for t in st.targets):
-                first = st
-                break
-        ok = False
-        why = f"the accumulated magnitude `{m}` has no initial assignment at function level"
-        if first is not None:
-            v = first.value
-            why = f"`{m}` starts from `{ast.unparse(v)}`"
-            if isinstance(v, ast.Attribute) and v.attr == "magnitude":
-                src = v.value
-                if isinstance(src, ast.Name):
-                    for st in fn.body:
-                        if isinstance(st, ast.Assign) and any(isinstance(t, ast.Name) and t.id == src.id for t in st.targets):
-                            src = st.value
-                            break
-                if isinstance(src, ast.Call) and isinstance(src.func, ast.Attribute) and src.func.attr == "unprefixed" \
-                        and isinstance(src.func.value, ast.Name) and src.func.value.id == qparam:
-                    ok = True
-        rep.check("R11.4", "conversions.convert:start", ok,
-                  f"{why}; it must start from {qparam}.unprefixed().magnitude, otherwise the source prefix is lost",
-                  conv.where(r))
+        if ast.unparse(call.func) != "Quantity" or not call.args:
+            continue
+        exprs = closure(call.args[0])
+        from_unprefixed = any(is_unprefixed_call(x) for e in exprs for x in ast.walk(e))
+        raw = any(isinstance(x, ast.Attribute) and x.attr == "magnitude" and isinstance(x.value, ast.Name) and x.value.id == qparam
+                  for e in exprs for x in ast.walk(e))
+        via_quantify = any(isinstance(x, ast.Call) and isinstance(x.func, ast.Attribute) and x.func.attr == "quantify"
+                           and any(qparam in names_in(c) for c in closure(x.func.value))
+                           for e in exprs for x in ast.walk(e))
+        rep.check("R11.4", f"conversions.convert:return#{i + 1}", from_unprefixed or (raw and via_quantify),
+                  f"the returned magnitude `{ast.unparse(call.args[0])[:60]}` does not derive from {qparam}.unprefixed() "
+                  f"(nor from {qparam}'s prefix through quantify()): the source prefix is lost", conv.where(r))
     plan = prog.func("conversions._plan_conversion")
     pf = plan.node
     end = plan.params()[1]
@@ -141,6 +158,30 @@ def plan_prefix_step(rep: Report, prog: Program) -> None:
               f"found {len(steps)} step(s) {form!r}", plan.where())
 
 
+def prefix_arithmetic_layering(rep: Report, prog: Program, resolver: Resolver) -> None:
+    """R11.7: only class Prefix (and display code) touches prefix.base / prefix.exponent in
+    arithmetic; everything else obtains factors through Prefix.quantify / the operators."""
+    n = 0
+    for q, fi in prog.functions.items():
+        if fi.cls == "Prefix" or fi.module in ("hypothesis", "pytest", "formatting"):
+            continue
+        for node in ast.walk(fi.node):
+            if not isinstance(node, (ast.BinOp, ast.AugAssign)):
+                continue
+            for sub in ast.walk(node):
+                if isinstance(sub, ast.Attribute) and sub.attr in ("base", "exponent"):
+                    alts = resolver.expr_alts(fi, sub.value)
+                    if any(k == "inst" and f == "measured.Prefix" for k, f in alts):
+                        n += 1
+                        rep.fail("R11.7", f"{q}:{ast.unparse(node)[:50]}",
+                                 f"`{ast.unparse(node)[:80]}` does arithmetic on a prefix's base/exponent outside class Prefix: "
+                                 "prefix factors must come from Prefix.quantify and the verified prefix operators "
+                                 "(mixed bases are otherwise mishandled)", fi.where(node))
+                        break
+    if n == 0:
+        rep.ok("R11.7", "package", note="0 sites")
+
+
 def named_prefixes(rep: Report) -> None:
     ev = evaluate()
     seen: Dict[Tuple[int, Fraction], str] = {}
@@ -166,6 +207,7 @@ def run(rep: Report) -> None:
     rep.rule("R11.2", "Prefix operators add / subtract / scale exponents (log-values) in every arm; quantify is base**exponent", floor=11)
     rep.rule("R11.3", "Unit.quantify, Quantity.unprefixed and number*prefix preserve the physical value and leave the identity prefix", floor=3)
     rep.rule("R11.4", "convert() starts from the unprefixed magnitude and the plan divides by the target prefix exactly once", floor=2)
+    rep.rule("R11.7", "prefix factors are computed only inside class Prefix (no arithmetic on .base/.exponent elsewhere)")
     rep.rule("R11.5", "declared prefixes: integer base >= 2, integer exponent, one name per factor", floor=25)
     ops = dict(UNIT_OPS)
     check_group_ops(rep, "R11.1", prog, resolver, ops, "unit", ("dimension", "prefix", "unit"), component="p")
@@ -194,6 +236,7 @@ def run(rep: Report) -> None:
     check_prefix_ops(rep, "R11.2", prog, resolver)
     value_preservation(rep, prog, resolver)
     plan_prefix_step(rep, prog)
+    prefix_arithmetic_layering(rep, prog, resolver)
     named_prefixes(rep)
     rep.not_decided.append("the 1e-9 relative bound for mixed SI/IEC prefixes (floating point); only the algebraic change of base is decided")
     rep.assume("in_unit is value-preserving where it succeeds (C04)")
